@@ -193,5 +193,99 @@ def early_return_to_nested(root):
     return n
 
 
+def _private_method_names(root):
+    """private (single underscore) function / method names defined in the package and not mentioned by the tests"""
+    names = set()
+    for p in _py_files(root):
+        for n in ast.walk(ast.parse(open(p).read())):
+            if isinstance(n, ast.FunctionDef) and n.name.startswith('_') and not n.name.startswith('__'):
+                names.add(n.name)
+    used_by_tests = set()
+    tdir = os.path.join(root, 'tests')
+    for dp, dn, fn in os.walk(tdir):
+        for f in fn:
+            if f.endswith('.py'):
+                src = open(os.path.join(dp, f)).read()
+                for nm in names:
+                    if nm in src:
+                        used_by_tests.add(nm)
+    return names - used_by_tests
+
+
+def rename_private_methods(root):
+    """consistently rename private helpers that no test refers to (definitions, attribute uses, string-free)"""
+    names = _private_method_names(root)
+    mapping = {n: n + '_x' for n in names}
+    cnt = 0
+    for p in _py_files(root):
+        src = open(p).read()
+        if not src.strip():
+            continue
+        tree = ast.parse(src)
+        ch = 0
+        for n in ast.walk(tree):
+            if isinstance(n, ast.FunctionDef) and n.name in mapping:
+                n.name = mapping[n.name]
+                ch += 1
+            elif isinstance(n, ast.Attribute) and n.attr in mapping:
+                n.attr = mapping[n.attr]
+                ch += 1
+            elif isinstance(n, ast.Name) and n.id in mapping:
+                n.id = mapping[n.id]
+                ch += 1
+        if ch:
+            open(p, 'w').write(ast.unparse(tree) + '\n')
+            cnt += 1
+    return cnt
+
+
+class _InlineSingleUse(ast.NodeTransformer):
+    """`x = <pure expr>` immediately followed by a statement that reads x exactly once (and nothing else reads it) -> inline"""
+
+    def visit_FunctionDef(self, node):
+        self.generic_visit(node)
+        node.body = self._do(node.body, node)
+        return node
+
+    def _pure(self, e):
+        return all(isinstance(x, (ast.Name, ast.Attribute, ast.Subscript, ast.Constant, ast.Load, ast.Tuple, ast.List, ast.Slice)) for x in ast.walk(e))
+
+    def _do(self, body, fn):
+        i = 0
+        while i + 1 < len(body):
+            s = body[i]
+            if isinstance(s, ast.Assign) and len(s.targets) == 1 and isinstance(s.targets[0], ast.Name) and self._pure(s.value):
+                name = s.targets[0].id
+                uses = [x for x in ast.walk(fn) if isinstance(x, ast.Name) and x.id == name]
+                nxt = body[i + 1]
+                loads_next = [x for x in ast.walk(nxt) if isinstance(x, ast.Name) and x.id == name and isinstance(x.ctx, ast.Load)]
+                if len(uses) == 2 and len(loads_next) == 1 and not isinstance(nxt, (ast.For, ast.While, ast.Try, ast.With, ast.FunctionDef)):
+                    class R(ast.NodeTransformer):
+                        def visit_Name(self_, n):
+                            return s.value if n.id == name and isinstance(n.ctx, ast.Load) else n
+                    body[i + 1] = R().visit(nxt)
+                    del body[i]
+                    self.count = getattr(self, 'count', 0) + 1
+                    continue
+            i += 1
+        return body
+
+
+def inline_single_use_locals(root):
+    n = 0
+    for p in _py_files(root):
+        src = open(p).read()
+        if not src.strip():
+            continue
+        tree = ast.parse(src)
+        tr = _InlineSingleUse()
+        tree = tr.visit(tree)
+        if getattr(tr, 'count', 0):
+            open(p, 'w').write(ast.unparse(ast.fix_missing_locations(tree)) + '\n')
+            n += 1
+    return n
+
+
 VARIANTS = [('reformat', reformat), ('rename-locals', rename_locals), ('add-logging', add_logging),
-            ('format-to-fstring', format_to_fstring), ('early-return-to-nested', early_return_to_nested)]
+            ('format-to-fstring', format_to_fstring), ('early-return-to-nested', early_return_to_nested),
+            ('inline-single-use-locals', inline_single_use_locals), ('rename-private-methods', rename_private_methods)]
